@@ -26,8 +26,13 @@ const (
 	vfC03KeyRABody        = "responseadaptor-body-keeps-backend-Content-Length"
 	vfC03KeyHead          = "HEAD-buffered-backend-declares-Content-Length-FetchPayload-reads-absent-body-500"
 	vfC03KeyTimeoutStream = "pool-timeout-cancels-streamed-response-body-when-handler-returns"
-	vfC03KeyStreamCut     = "mux-ignores-read-error-of-streamed-response-body-truncated-body-ends-as-complete-response"
-	vfC03KeyStreamGz      = "handler-panic runtime error: invalid memory address or nil pointer dereference @ readers.(*CallbackReader).OnAfter"
+	// a late mirror copy (its context is the one of the front request it belongs to, cancelled when that
+	// request ends) that is handed an idle backend connection after its cancellation tears that
+	// connection down; the answer to the NEXT request, which had just arrived on it, is lost and the
+	// client gets 503 although the backend answered (needs a loaded machine; see proposed_known.jsonl)
+	vfC03KeyMirrorCancel = vfxKeyMirrorCancel
+	vfC03KeyStreamCut    = "mux-ignores-read-error-of-streamed-response-body-truncated-body-ends-as-complete-response"
+	vfC03KeyStreamGz     = "handler-panic runtime error: invalid memory address or nil pointer dereference @ readers.(*CallbackReader).OnAfter"
 )
 
 // ---------------------------------------------------------------------------------------------
@@ -897,6 +902,7 @@ func TestVerifC03Forward(t *testing.T) {
 				if transient {
 					vf.Class("transient-503-without-backend-contact-retried")
 				}
+				mirroredEarlier := rig.mirroredBefore // an earlier exchange of this case may have left a mirror copy behind
 
 				// classes
 				reserved := vfC03ReservedEsc.MatchString(q.RawPath)
@@ -965,6 +971,8 @@ func TestVerifC03Forward(t *testing.T) {
 					switch {
 					case v.Symptom == "harness":
 						rt.Fatalf("VF-INCONCLUSIVE %s", v.Text)
+					case v.Symptom == "resp-status" && mirroredEarlier && resp.Status == 503 && p.Status != 503 && len(seen) > 0:
+						key = vfC03KeyMirrorCancel
 					case vfxPanicSite(frontLog) != "":
 						key = "handler-panic " + vfxPanicSite(frontLog)
 					case reserved && (v.Symptom == "req-path" || v.Symptom == "req-query" || v.Symptom == "req-not-forwarded"):
